@@ -140,6 +140,23 @@ func g1Adapter() *adapter {
 		R.ScalarMult(blsScalar(k, blsScalarBytes), p.(*bls.G1))
 		return &R
 	}
+	ad.intoOps = []intoOp{
+		{"g.Add(x,y)", func(z, x, y pt, k *big.Int) { z.(*bls.G1).Add(x.(*bls.G1), y.(*bls.G1)) }, intoSum},
+		{"g.ScalarMult(k,x)", func(z, x, y pt, k *big.Int) { z.(*bls.G1).ScalarMult(blsScalar(k, blsScalarBytes), x.(*bls.G1)) }, intoMul},
+		{"g.SetIdentity()", func(z, x, y pt, k *big.Int) { z.(*bls.G1).SetIdentity() }, intoZero},
+		{"*g=*Generator()", func(z, x, y pt, k *big.Int) { *z.(*bls.G1) = *bls.G1Generator() }, intoOne},
+		{"*g=*x", func(z, x, y pt, k *big.Int) { *z.(*bls.G1) = *x.(*bls.G1) }, intoX},
+		{"g.SetBytes(x.Bytes())", func(z, x, y pt, k *big.Int) {
+			if err := z.(*bls.G1).SetBytes(x.(*bls.G1).Bytes()); err != nil {
+				panic(err)
+			}
+		}, intoX},
+		{"g.SetBytes(x.BytesCompressed())", func(z, x, y pt, k *big.Int) {
+			if err := z.(*bls.G1).SetBytes(x.(*bls.G1).BytesCompressed()); err != nil {
+				panic(err)
+			}
+		}, intoX},
+	}
 	ad.observers = []observer{
 		{"Bytes", func(p, q pt) string {
 			w, err := parseG1(p.(*bls.G1).Bytes())
@@ -208,6 +225,23 @@ func g2Adapter() *adapter {
 		var R bls.G2
 		R.ScalarMult(blsScalar(k, blsScalarBytes), p.(*bls.G2))
 		return &R
+	}
+	ad.intoOps = []intoOp{
+		{"g.Add(x,y)", func(z, x, y pt, k *big.Int) { z.(*bls.G2).Add(x.(*bls.G2), y.(*bls.G2)) }, intoSum},
+		{"g.ScalarMult(k,x)", func(z, x, y pt, k *big.Int) { z.(*bls.G2).ScalarMult(blsScalar(k, blsScalarBytes), x.(*bls.G2)) }, intoMul},
+		{"g.SetIdentity()", func(z, x, y pt, k *big.Int) { z.(*bls.G2).SetIdentity() }, intoZero},
+		{"*g=*Generator()", func(z, x, y pt, k *big.Int) { *z.(*bls.G2) = *bls.G2Generator() }, intoOne},
+		{"*g=*x", func(z, x, y pt, k *big.Int) { *z.(*bls.G2) = *x.(*bls.G2) }, intoX},
+		{"g.SetBytes(x.Bytes())", func(z, x, y pt, k *big.Int) {
+			if err := z.(*bls.G2).SetBytes(x.(*bls.G2).Bytes()); err != nil {
+				panic(err)
+			}
+		}, intoX},
+		{"g.SetBytes(x.BytesCompressed())", func(z, x, y pt, k *big.Int) {
+			if err := z.(*bls.G2).SetBytes(x.(*bls.G2).BytesCompressed()); err != nil {
+				panic(err)
+			}
+		}, intoX},
 	}
 	ad.observers = []observer{
 		{"Bytes", func(p, q pt) string {
